@@ -282,7 +282,27 @@ def c11(run):
         g.exh_setters(q(run, [0x00, 0xff], PRIORS_Q), fault=True)
         g.hist(q(run, 150, 2000))
         g.modem_switch_fault(q(run, 150, 2000))
-    return C.execute(run, gen, monitor=chain(M.mon_faults, M.mon_expect, mon_stale_cache))
+    return C.execute(run, gen, monitor=chain(M.mon_faults, M.mon_expect, mon_stale_cache, mon_after_fault))
+
+def mon_after_fault(run, script, il, iab, ml):
+    """C11, 'once transfers succeed again ...': in a script in which a transfer was made to fail, every later chip dump
+    equals the one the specification (the model) prescribes for the same history"""
+    a = [l for l in il if not l.startswith('!')]
+    faulted = False
+    for k, (x, y) in enumerate(zip(a, ml)):
+        if M.is_op(x):
+            if M.is_op(y) and x != y and not faulted:
+                return     # diverged before any failure: not this monitor's business
+            if any(e['fault'] is not None for e in M.spi_entries(M.fields(x).get('spi'))):
+                faulted = True
+        elif faulted and x.startswith('chip ') and y.startswith('chip '):
+            run.cov['monitor_checks'] += 1
+            if x != y:
+                dx, dy = M.dump_of(x), M.dump_of(y)
+                diff = ['%s[%02x]: driver %02x, specification %02x' % (pg, i, p, r) for pg in ('s', 'l', 'f') for i, (p, r) in enumerate(zip(dx[pg], dy[pg])) if p != r]
+                prev = next((l for l in reversed(a[:k]) if M.is_op(l)), '')
+                run.violation('after a failed transfer and successful calls since, the chip is not configured as specified (last call `%s`): %s' % (M.fields(prev).get('op', '?'), '; '.join(diff[:4])), script, {'diff': diff[:20]})
+                return
 
 def mon_stale_cache(run, script, il, iab, ml):
     """C11, 'no stale cache content left by the failed attempt': in a script in which a transfer was made to fail, the
@@ -369,7 +389,7 @@ def c17(run):
         g.attach_fsk(q(run, 40, 600))
         for _ in range(q(run, 5, 60)):
             g.attach()
-    return C.execute(run, gen, monitor=chain(M.mon_expect, mon_c17), cone={'create', 'irq'})
+    return C.execute(run, gen, monitor=chain(M.mon_expect, mon_c17, mon_abort_generic), cone={'create', 'irq'})
 
 def mon_c17(run, script, il, iab, ml):
     """the chip is bit-identical before and after handle creation"""
@@ -652,6 +672,8 @@ def c20(run):
             expect('SyncWord', str(data[0x39]))
             expect('PreambleLength', str((data[0x20] << 8) | data[0x21]))
             expect('PayloadLength', str(data[0x22]))
+            expect('RxPayloadCrcOn', str((data[0x1e] >> 2) & 1))
+            expect('CodingRate', {1: '4/5', 2: '4/6', 3: '4/7', 4: '4/8'}.get((data[0x1d] >> 1) & 7, kv.get('CodingRate')))
         else:
             div = ((data[2] << 8) | data[3]) + data[0x5d] / 16.0
             if div:
